@@ -721,7 +721,7 @@ fn run_history<KD: Kind>(kd: &KD, rng: &mut Rng, hno: usize) -> String {
                     if KD::VALIDITY && kd.vmeta(&result) != c {
                         d.bad(opn, format!("lookup({ki}) with current file metadata {c:?} used a value computed for {:?}", kd.vmeta(&result)));
                     }
-                    format!("{{\"op\":\"lookup\",\"key\":{ki},\"cur\":[{},{},{}],\"fresh\":{},\"hit\":{hit},\"res\":{}", c.fs, c.mt, c.sc, jv(id, fs, c), jv(kd.vid(&result), result.size(), kd.vmeta(&result)))
+                    format!("{{\"op\":\"lookup\",\"key\":{ki},\"cur\":[{},{},{}],\"fresh\":{},\"hit\":{hit},\"res\":{}", c.fs, c.mt, c.sc, jv(id, fs, c), if hit { jv(kd.vid(&result), result.size(), kd.vmeta(&result)) } else { jv(id, fs, c) })
                 }
                 64..=69 => {
                     let b = d.cache.contains_key(&key);
